@@ -21,7 +21,8 @@ EXPLANATION = (
     "renaming; Q = erfc(x/sqrt2)/2. These forms depend on the levels only through differences (C13.4 follows). C13.5: every estimated "
     "threshold is an element of linspace(mu0, mu1, n); optimum_threshold equals the closed-form root. C13.6: PD's A^2 variances times "
     "R_load^2 and EDFA's P_ase equal the utils terms under B<->fs/2, BW_opt<->fs. C13.7: wrappers are np.vectorize'd; M not a power of "
-    "two raises ValueError. Not decided: numerical agreement/monotonicity/quad accuracy.")
+    "two raises ValueError. C13.9: the receiver-model helpers accept the inclusive edge G = 0 dB as they accept G = 20 dB (differential on the set of raising "
+    "exits: a presence test written as a truthiness test adds one). Not decided: numerical agreement/monotonicity/quad accuracy.")
 TRUSTED = ["scipy.special.erfc, scipy.integrate.quad semantics", "numpy.vectorize/linspace/argmin", "scipy.constants h, k, e, c", "utils.idb/idbm/Q (C19)"]
 
 H_ = Form.atom(("c", "scipy.constants.h"))
